@@ -130,6 +130,7 @@ var templates = []string{
 	"func(a, b) { return a }(%s...)", "func(a...) { return a }(%s...)", "func(a) { *a = %s }(%s)", "func() { defer %s(%s); return 1 }()", "func() { go %s(%s); return 1 }()",
 	"boomv(%s...)", "go boomv(%s...)", "defer boomv(%s...)", "go boomv(%s, %s...)", "go takesStrs(%s...)", "go %s(%s, %s...)",
 	"si.A = %s\n{si: 1}", "si.A = %s\nm[si] = 1", "si.B = %s\ndelete(m, si)", "si.A = %s\nm[si]", "si.A = %s\nmap[interface]int64{si: 1}", "si.A = %s\n(si in [si])", "si.A = %s\nsi == si", "si.A = %s\nswitch si { case si: 1 }",
+	"*ty = %s", "*ty = *make(type T2, %s)", "*make(type T3, %s) = nil", "(*ty).t", "x = *ty\nx.t = %s", "ty.zz = %s", "ty(%s)", "make(ty)", "for x in ty { x }", "ty + %s", "ty == %s", "%s[ty]", "m[ty] = %s", "{ty: %s}", "typeOf(*ty)",
 	"x = [%s]\n{x[0]: 1}", "x = {\"k\": %s}\nm[x.k] = 2", "x = id(%s)\nm[x]", "x = %s\ndelete(m, x)\ndelete(im, x)\ndelete(tm, x)",
 	"try { %s(%s) } catch e { e.Error() }", "try { throw %s } catch e { e = %s }", "module m2 { a = %s }; m2.a(%s)", "x = %s; x.y = %s", "x = %s; x[0] = %s; x",
 }
@@ -180,7 +181,7 @@ func genOperand(t *rapid.T, depth int) string {
 // operands that have been at the root of real crashes: typed nils, nil interfaces,
 // pointers, invalid dereferences, huge sizes, structs with interface fields
 var hotOperands = []string{"pl[0]", "il[0]", "n", "nil", "p", "ps", "*p", "&i", "st", "si", "mod", "ch", "uc", "fn", "l", "m", "tl", "tm", "s", "i",
-	"9223372036854775807", "-9223372036854775808", "72057594037927936", "make([]*int64, 2)", "make(map[string]*int64)", "new(struct{A int64})", "[nil]", "id(nil)", "[p][0]", "make(*int64)", "ll[0]", "m.b"}
+	"9223372036854775807", "-9223372036854775808", "72057594037927936", "make([]*int64, 2)", "make(map[string]*int64)", "new(struct{A int64})", "[nil]", "id(nil)", "[p][0]", "make(*int64)", "ll[0]", "m.b", "ty", "*ty", "make(type T2, 1)", "make(type T3, l)", "(*ty).t"}
 
 func genTargeted(t *rapid.T) Case {
 	c := Case{Kind: "targeted"}
